@@ -178,7 +178,7 @@ pub fn av1_headers(full: bool) -> Vec<SeqHdr> {
     let levels: &[u8] = if full { &[0, 7, 8, 31] } else { &[7, 8] };
     // incl. the longest ordinary code (31 leading zeros) and the 32-leading-zeros escape
     let uvlcs: &[u32] = if full { &[0, 1, 5, u32::MAX - 1, u32::MAX] } else { &[0, 5, u32::MAX - 1, u32::MAX] };
-    let descs: &[u8] = if full { &[0, 1, 2] } else { &[0, 1] };
+    let descs: &[u8] = if full { &[0, 1, 2, 3, 4, 5, 6] } else { &[0, 1, 3, 5] };
     let csps: &[u8] = if full { &[0, 1, 2, 3] } else { &[0, 2] };
     // section B (timing / decoder model / operating points) x section C (tools) x section D (colour)
     let mut secb = vec![];
@@ -880,7 +880,7 @@ pub fn check(ctx: &Ctx) -> i32 {
     let mut inits = vec![];
     for &codec in &oracle::frames::VCODECS {
         for via in [true, false] {
-            for ps in [1usize, 4, 255, 256] {
+            for ps in [0usize, 1, 4, 255, 256] {
                 for (w, h) in [(320u32, 240u32), (1920, 1080), (65535, 65535)] {
                     inits.push(FCfg { codec, via_builder: via, timescale: 90000, fragment_ms: 2000, start_dts: 0, width: w, height: h, ps_len: ps });
                 }
@@ -989,7 +989,7 @@ pub fn check(ctx: &Ctx) -> i32 {
         &tally,
         Meta {
             level: "exploration",
-            rule: format!("H.264/H.265: every first keyframe that is a sequence of <= {max_units} NAL units over {{SPSa, SPSb, PPSa, PPSb, (VPSa, VPSb), IDR, SEI, AUD, non-IDR}} x 8 framings (start-code phase, leading garbage, trailing zeros), muxed, finished, and the avcC/hvcC compared with the first parameter sets; keyframes whose first set of one type is 65535 / 65536 / 70000 bytes long with a normal second one of that type before or after it (refused, or the first one carried); AV1: {n_av1} syntactically valid sequence headers produced by a spec-5.5 bit writer (branch product of the header syntax{}) x {LAYOUTS} OBU layouts through extract_av1_config, and through muxer+finish+reader for {}; VP9: {n_vp9} headers of the accepted form; audio: {n_audio} (codec, rate, channels) combinations; fragmented init segments: {n_init} builder/FragmentConfig combinations (parameter-set lengths 1, 4, 255, 256; three dimensions); histories: per codec 7 kinds of first attempt (negative, NaN, overflowing composition offset, not a keyframe, infinite DTS, PTS far before DTS, none) x 4^3 configuration variants for (attempt, next keyframe, later keyframe), sample entry compared with the one of the first accepted keyframe alone. Expected values are known by construction (the generator wrote them). Distinct by the resulting sample entry bytes.", if ctx.thorough { ", full product" } else { ", every pair of sections in full product" }, if ctx.thorough { "every header" } else { "a section-default subset" }),
+            rule: format!("H.264/H.265: every first keyframe that is a sequence of <= {max_units} NAL units over {{SPSa, SPSb, PPSa, PPSb, (VPSa, VPSb), IDR, SEI, AUD, non-IDR}} x 8 framings (start-code phase, leading garbage, trailing zeros), muxed, finished, and the avcC/hvcC compared with the first parameter sets; keyframes whose first set of one type is 65535 / 65536 / 70000 bytes long with a normal second one of that type before or after it (refused, or the first one carried); AV1: {n_av1} syntactically valid sequence headers produced by a spec-5.5 bit writer (branch product of the header syntax{}) x {LAYOUTS} OBU layouts through extract_av1_config, and through muxer+finish+reader for {}; VP9: {n_vp9} headers of the accepted form; audio: {n_audio} (codec, rate, channels) combinations; fragmented init segments: {n_init} builder/FragmentConfig combinations (parameter-set lengths 0, 1, 4, 255, 256; three dimensions); histories: per codec 7 kinds of first attempt (negative, NaN, overflowing composition offset, not a keyframe, infinite DTS, PTS far before DTS, none) x 4^3 configuration variants for (attempt, next keyframe, later keyframe), sample entry compared with the one of the first accepted keyframe alone. Expected values are known by construction (the generator wrote them). Distinct by the resulting sample entry bytes.", if ctx.thorough { ", full product" } else { ", every pair of sections in full product" }, if ctx.thorough { "every header" } else { "a section-default subset" }),
             bound: format!("<= {max_units} NAL units per keyframe; AV1 field domains as listed in DESIGN.md"),
             exhaustive: true,
             assumptions: vec!["the AV1 bit writer (oracle/src/frames.rs) follows AV1 spec 5.5; it is the source of truth for expected fields".into(), "vpcC values are judged positionally when the record is in muxide's 8-byte layout (the layout itself is C19's finding)".into()],
